@@ -29,3 +29,8 @@ claim("C19", "model_checking",
       "All timelines over the event alphabet reach a fixpoint of the canonical state space (waiting, idle time, time since PING, traffic since PING, closed) for three (IVL, TIMEOUT) pairs; in every state the engine's PING/PONG/close decisions must match the monitor. All push/push_priority/advance(k) histories up to depth 5 (6) on the real EgressBuffer must produce a byte stream that is a concatenation of whole chunks with control chunks ahead of unstarted data.",
       "engine clock stamps are overwritten with the scripted clock after each call; the actor's interval timer wiring and io_uring's tick wiring are outside the engine timelines (see C20); data-but-no-PONG at the deadline is accepted either way",
       "5/C19")
+claim("C08", "model_checking",
+      "E2: iterative preemption-bounded DFS (CHESS style, own scheduler over shuttle continuations) of small harnesses on the real ReadyPipeQueue / ingress engines, switch points between every individual queue and counter step and at every Pending; deadlock = lost wake-up",
+      "Every schedule with at most 2 (thorough: 3) preemptions of 30 harnesses (1-2 producers on async / non-blocking / batched enqueue paths, 1-2 consumers on blocking / non-blocking dequeue, cancellation of a blocked dequeue at each Pending, deregister/re-register/close races, the filtered SUB batch path) is executed on fresh real objects; a schedule in which every task is blocked while an item is committed is a lost wake-up; popped items must be exactly-once and per-pipe FIFO and the counters consistent at quiescence.",
+      "atomicity granularity = individual channel op / atomic RMW / lock section (hooks between all of them in ready_pipe_queue.rs); sequentially consistent memory (weak-memory effects of the chosen Orderings not modelled: fibre/parking_lot cannot be switched to loom); component preconditions respected (ready capacity >= pipes, one producer per pipe); 2-3 items, 1-2 pipes",
+      "5/C08")
